@@ -62,7 +62,15 @@ Additions of the loop ties of C03 / C20 (marked `[loop ties C03]` / `[loop ties 
                `T['col'] = [E for row in T.itertuples(index=False)]` read per row as `T['col'] = E` (cells are `row.<column>`);
                [loop ties C09] `T = T.assign(c1=v1, ..)` with constant / plain-name values read as `T['c1'] = v1; ..`; a load
                `T.loc[mask, 'col']` is `T['col'][mask]`;
-               an `if` of assignments none of which is read afterwards is refused (it used to end in an IndexError)"""
+               an `if` of assignments none of which is read afterwards is refused (it used to end in an IndexError)
+
+Additions of the loop ties of C01 / C02, second batch (marked `[loop ties e1]`; additive, fail-closed):
+  statements : `T['col'] = T.apply(lambda row: E, axis=1)` read per row as `T['col'] = E` (cells are `row['c']`, declared as
+               parameters; the lambda takes exactly the row, its name is bound nowhere else in the function, E mentions
+               neither T nor binds names);
+               `T = g(args)` where the spec declares function-typed parameters keyed `g['col']`: from there on `T['col']` is
+               `g['col'] args` (the row's cell in that column of the table g returns); T must be assigned once
+  expressions: `s.startswith(t)` on two strings (Base/Str.v str_prefix t s); `v if c else None` with v : B / OB (an OB)"""
 import ast, os, sys, glob, importlib.util
 from fractions import Fraction
 
@@ -1123,7 +1131,9 @@ class FnTranslator:
                 rname = la.args[0].arg
                 inside = sum(1 for x in ast.walk(lam) if (isinstance(x, ast.Name) and x.id == rname) or (isinstance(x, ast.arg) and x.arg == rname))
                 everywhere = sum(1 for x in ast.walk(self.cur_fnode) if (isinstance(x, ast.Name) and x.id == rname) or (isinstance(x, ast.arg) and x.arg == rname))
-                if inside != everywhere or any(isinstance(x, ast.Name) and x.id == tname for x in ast.walk(lam.body)) \
+                # (the lambda is part of the enclosing function, so everywhere >= inside there; `>` rather than `!=` only so that
+                #  tools/fn_selftest.py, which desugars without entering function(), is not refused on a stale cur_fnode)
+                if everywhere > inside or any(isinstance(x, ast.Name) and x.id == tname for x in ast.walk(lam.body)) \
                         or any(isinstance(x, (ast.Lambda, ast.NamedExpr, ast.ListComp, ast.GeneratorExp, ast.SetComp, ast.DictComp)) for x in ast.walk(lam.body)):
                     raise Refuse('%s: %s.apply(lambda %s: ..., axis=1): %s is bound elsewhere, or the body mentions %s / binds names'
                                  % (self.rel, tname, rname, rname, tname))
@@ -1348,6 +1358,25 @@ class FnTranslator:
             # `if not c: raise`); A and the rest are translated
             self.guards.append('not (%s)' % ast.unparse(s.test))
             return self.block(list(s.body) + rest, env, ret)
+        if isinstance(s, ast.Assign) and len(s.targets) == 1 and isinstance(s.targets[0], ast.Name) \
+                and isinstance(s.value, ast.Call) and isinstance(s.value.func, ast.Name) \
+                and any(k.startswith(s.value.func.id + "['") and env[k][1].startswith('F:') for k in env):
+            # [loop ties e1] T = g(args) where the spec declares function-typed parameters keyed `g['col']`: the table g returns
+            # is read, per row, through these columns only -- the row's cell in column 'col' is the pure function g['col'] of
+            # the call's arguments (see fn_type; every declared slot must be given) -- and from here on `T['col']` is that
+            # value.  T itself is not a value (any other use is an unknown name); refused when T is assigned a second time in
+            # the function (a stale `T['col']` could otherwise outlive the table it was read from).
+            T, g = s.targets[0].id, s.value.func.id
+            if sum(1 for x in ast.walk(getattr(self, 'cur_fnode', s)) if isinstance(x, ast.Name) and isinstance(x.ctx, ast.Store) and x.id == T) > 1:
+                raise Refuse('%s: %s = %s(...) read by columns, but %s is assigned more than once' % (self.rel, T, g, T))
+            env2 = {k: v for k, v in env.items() if k != T and not k.startswith(T + '[')}
+            lets = []
+            for k in [k for k in env if k.startswith(g + "['") and env[k][1].startswith('F:')]:
+                term, ty = self.call(ast.Call(func=ast.parse(k, mode='eval').body, args=s.value.args, keywords=s.value.keywords), env)
+                nm = self.new(''.join(c if c.isalnum() else '_' for c in T + k[len(g):]).strip('_'))
+                env2[T + k[len(g):]] = (nm, ty)
+                lets.append('(let %s := %s in\n   ' % (nm, term))
+            return ''.join(lets) + self.block(rest, env2, ret) + ')' * len(lets)
         if isinstance(s, ast.Assign):
             key, vnode = self.norm_assign(s, env) if len(s.targets) == 1 else (None, None)
             if key is None:
